@@ -81,7 +81,7 @@ func (g *vByteGate) Receive(f *sts.Partial, r io.Reader) error {
 }
 
 // A payload of two parts — the tail [b1, 4) of file x (4 bytes, predecessor w)
-// and the head [0, e2) of file d/y (3 bytes), b1 and e2 chosen — built by the
+// and the head [0, e2) of file d/y:z (3 bytes), b1 and e2 chosen — built by the
 // real payload.Bin, sent by the real http client, routed by the real server
 // through the real decoder. What the gate keeper is handed is exactly what was
 // sent: the descriptors (name, predecessor, hash, size, range) in order and,
@@ -93,14 +93,14 @@ func H_C13_WireLoop(v *verifrt.T) {
 	e2 := int64(1 + v.Choose("second-part-ends-at", 3)) // [0,e2) of d/y
 	files := map[string]*vTxFile2{
 		"x":   {name: "x", size: 4, prev: "w", tag: "x"},
-		"d/y": {name: "d/y", size: 3, prev: "x", tag: "y"},
+		"d/y:z": {name: "d/y:z", size: 3, prev: "x", tag: "y"},
 	}
 	bin := payload.NewBin(1<<40, func(f sts.File) (sts.Readable, error) {
 		t := files[f.GetName()]
 		return &vSrcHandle{v: v, tag: t.tag, size: t.size}, nil
 	}, nil)
 	bin.Add(&vChunk{vTxFile2: files["x"], off: b1, n: 4 - b1})
-	bin.Add(&vChunk{vTxFile2: files["d/y"], off: 0, n: e2})
+	bin.Add(&vChunk{vTxFile2: files["d/y:z"], off: 0, n: e2})
 	gk := &vByteGate{vGate: vGate{ready: true}}
 	srv := &Server{
 		GateKeepers:    map[string]sts.GateKeeper{"src": gk},
@@ -119,7 +119,7 @@ func H_C13_WireLoop(v *verifrt.T) {
 	v.Reach("received")
 	p1, p2 := gk.got[0], gk.got[1]
 	v.Assert(p1.name == "x" && p1.prev == "w" && p1.hash == "h-x" && p1.size == 4 && p1.beg == b1 && p1.end == 4, "C13 the first descriptor arrives as encoded")
-	v.Assert(p2.name == "d/y" && p2.prev == "x" && p2.hash == "h-d/y" && p2.size == 3 && p2.beg == 0 && p2.end == e2, "C13 the second descriptor arrives as encoded")
+	v.Assert(p2.name == "d/y:z" && p2.prev == "x" && p2.hash == "h-d/y:z" && p2.size == 3 && p2.beg == 0 && p2.end == e2, "C13 the second descriptor arrives as encoded")
 	v.Assert(p1.err == nil && int64(len(p1.bytes)) == 4-b1, "C13 the first part's reader delivers exactly end-beg bytes")
 	v.Assert(p2.err == nil && int64(len(p2.bytes)) == e2, "C13 the second part's reader delivers exactly end-beg bytes")
 	for j := range p1.bytes {
